@@ -67,7 +67,6 @@ Ltac binop_contra Hc :=
 
 Ltac def_contra Hc :=
   match type of Hc with context [if (Nat.ltb ?c ?s && ?r) then _ else _] => destruct (Nat.ltb c s && r); [|discriminate] end;
-  match type of Hc with context [no_pv ?ps] => destruct (no_pv ps); [|discriminate] end;
   dcomp; len_contra' Hc.
 (* the code of a call: opcall pc (no argument) | load y; callpc (a filter parameter) | at least 3 instructions *)
 Ltac callf_inv Hc :=
@@ -219,17 +218,16 @@ Qed.
 
 Lemma comp_def_inv : forall f ps body rest ce cur pc nv sn cq nv' sn',
   comp (QDef f ps body rest) ce cur pc nv sn = Some (cq, nv', sn') ->
-  cur < sn /\ ce_lt ce sn = true /\ no_pv ps = true /\ exists cb nvb s1 cr,
+  cur < sn /\ ce_lt ce sn = true /\ exists cb nvb s1 cr,
     let ce' := add_fun ce f (S pc) (length ps) in
     let pre := prelude sn ps in
     comp body (add_env (fun_env ce') (param_env sn ps)) sn (pc + 2 + length pre) (param_slots ps) (S sn) = Some (cb, nvb, s1) /\
     comp rest ce' cur (pc + 2 + length pre + length cb + 1) nv s1 = Some (cr, nv', sn') /\
     cq = Ijump (pc + 2 + length pre + length cb + 1) :: Iscope sn nvb (length ps) :: pre ++ cb ++ Iret :: cr.
 Proof.
-  intros f ps body rest ce cur pc nv sn cq nv' sn' Hc. cbn -[Nat.add Nat.ltb ce_lt prelude param_env param_slots no_pv] in Hc.
+  intros f ps body rest ce cur pc nv sn cq nv' sn' Hc. cbn -[Nat.add Nat.ltb ce_lt prelude param_env param_slots] in Hc.
   destruct (Nat.ltb_spec cur sn) as [Hlt|]; [|discriminate]. split; [exact Hlt|].
   destruct (ce_lt ce sn) eqn:Hce; [|discriminate]. split; [reflexivity|]. cbn [andb] in Hc.
-  destruct (no_pv ps) eqn:Hpv; [|discriminate]. split; [reflexivity|].
   match type of Hc with context [comp body ?ce0 ?c0 ?p0 ?n0 ?s0] =>
     destruct (comp body ce0 c0 p0 n0 s0) as [[[cb nvb] s1]|] eqn:Eb; [|discriminate] end.
   match type of Hc with context [comp rest ?ce0 ?c0 ?p0 ?n0 ?s0] =>
